@@ -26,28 +26,61 @@ variable {Id : Type} {e : Env Id} {fold : Id → Id}
 /-- every stored id is empty (a zeroed segment; what `number == 0 && loaded == 0` assumes) -/
 def AllEmpty (e : Env Id) (s : St Id) : Prop := ∀ (k : Nat) (id : Id), s.userid[k]? = some id → e.isEmpty id = true
 
+/-- everything the cold load guarantees, in one statement (the next two theorems are its parts) -/
+theorem cold_load_spec (L : Laws e fold) (s : St Id) (recs : List Id) (hs : Shape e s) (hn : s.number = 0)
+    (hl : s.loaded = 0) (hempty : AllEmpty e s) (hlen : recs.length ≤ e.MAX) :
+    ∃ s', loadUHash e s (some (recs, false)) = .ok (s', .ok) ∧ Inv e s' ∧
+      s'.number = (recs.length : Int) ∧ s'.loaded = 1 ∧
+      (∀ j, recs.length ≤ j → s'.userid[j]? = s.userid[j]?) ∧
+      ((recs.filter (fun r => !e.valid r)).length ≤ e.PRE →
+        ∀ j r, recs[j]? = some r → s'.userid[j]? = some r ∧ ∀ ch, WF e s' ch → j ∈ ch (e.hash r)) := by
+  have hwf0 : WF e { s with head := List.replicate e.B (-1) } (fun _ => []) := by
+    refine ⟨⟨hs.hu, hs.hn, by simp⟩, ?_⟩
+    intro h hh
+    exact ⟨-1, by simp [hh], rfl, List.nodup_nil, fun k hk => by cases hk⟩
+  have hcov0 : Cover e [] { s with head := List.replicate e.B (-1) } (fun _ => []) := by
+    intro k id hid hne _
+    have := hempty k id hid
+    rw [this] at hne
+    cases hne
+  obtain ⟨s', ch', hrun, hwf', hcov', hn', hl', hout, _, _, htab⟩ :=
+    fillLoop_cold L.hash_lt recs 0 0 _ _ hwf0 (fun h hh x hx => by cases hx) hcov0 (by simpa using hlen)
+  have hwf'' : WF e { s' with number := (recs.length : Int), loaded := 1 } ch' :=
+    ⟨⟨hwf'.1.hu, hwf'.1.hn, hwf'.1.hh⟩, hwf'.2⟩
+  refine ⟨{ s' with number := (recs.length : Int), loaded := 1 }, ?_, ⟨ch', hwf'', (fun k hk => by cases hk), hcov'⟩,
+    rfl, rfl, ?_, ?_⟩
+  · rw [loadUHash, if_pos ⟨hn, hl⟩]
+    simp only [fillUHash, initFill, Bool.false_eq_true, if_false, pure_ok, bind_ok, hrun, ne_eq, not_true_eq_false]
+  · intro j hj
+    exact hout j (Or.inr (by omega))
+  · intro hpre j r hj
+    have := htab (by simpa using hpre) j r hj
+    simp only [Nat.zero_add] at this
+    refine ⟨this.1, ?_⟩
+    intro ch hwf
+    rw [wf_unique hwf hwf'' (L.hash_lt r)]
+    exact this.2
+
 /-- Cold load (LoadUHash with Number = Loaded = 0 → fillUHash(false)) over ANY list of at most MAX records,
 valid or not, colliding or not: no fault, no error, and the invariant holds afterwards. -/
 theorem inv_init_cold (L : Laws e fold) (s : St Id) (recs : List Id) (hs : Shape e s) (hn : s.number = 0)
     (hl : s.loaded = 0) (hempty : AllEmpty e s) (hlen : recs.length ≤ e.MAX) :
     ∃ s', loadUHash e s (some (recs, false)) = .ok (s', .ok) ∧ Inv e s' ∧
       s'.number = (recs.length : Int) ∧ s'.loaded = 1 := by
-  have hwf0 : WF e { s with head := List.replicate e.B (-1) } (fun _ => []) := by
-    refine ⟨⟨hs.hu, hs.hn, by simp⟩, ?_⟩
-    intro h hh
-    exact ⟨-1, by simp [List.getElem?_replicate, hh], rfl, List.nodup_nil, fun k hk => by cases hk⟩
-  have hcov0 : Cover e [] { s with head := List.replicate e.B (-1) } (fun _ => []) := by
-    intro k id hid hne _
-    have := hempty k id hid
-    rw [this] at hne
-    cases hne
-  obtain ⟨s', ch', hrun, hwf', hcov', hn', hl', _, _⟩ :=
-    fillLoop_cold L.hash_lt recs 0 0 _ _ hwf0 (fun h hh x hx => by cases hx) hcov0 (by simpa using hlen)
-  refine ⟨{ s' with number := (recs.length : Int), loaded := 1 }, ?_, ⟨ch', ?_, (fun k hk => by cases hk), ?_⟩, rfl, rfl⟩
-  · rw [loadUHash, if_pos ⟨hn, hl⟩]
-    simp only [fillUHash, initFill, Bool.false_eq_true, if_false, pure_ok, bind_ok, hrun, ne_eq, not_true_eq_false]
-  · exact ⟨⟨hwf'.1.hu, hwf'.1.hn, hwf'.1.hh⟩, hwf'.2⟩
-  · exact hcov'
+  obtain ⟨s', h1, h2, h3, h4, _⟩ := cold_load_spec L s recs hs hn hl hempty hlen
+  exact ⟨s', h1, h2, h3, h4⟩
+
+/-- What the table holds after the cold load: when at most PRE_ALLOCATED_USERS records have an invalid id (always, in a
+build with PRE_ALLOCATED_USERS ≥ MAX_USERS such as the default one), slot j holds exactly the id of record j and is
+linked on the chain of its hash — including the empty-id slots kept for registration; slots past the file are untouched. -/
+theorem cold_table (L : Laws e fold) (s : St Id) (recs : List Id) (hs : Shape e s) (hn : s.number = 0)
+    (hl : s.loaded = 0) (hempty : AllEmpty e s) (hlen : recs.length ≤ e.MAX)
+    (hpre : (recs.filter (fun r => !e.valid r)).length ≤ e.PRE) :
+    ∃ s', loadUHash e s (some (recs, false)) = .ok (s', .ok) ∧
+      (∀ j r, recs[j]? = some r → s'.userid[j]? = some r ∧ ∀ ch, WF e s' ch → j ∈ ch (e.hash r)) ∧
+      (∀ j, recs.length ≤ j → s'.userid[j]? = s.userid[j]?) := by
+  obtain ⟨s', h1, _, _, _, h5, h6⟩ := cold_load_spec L s recs hs hn hl hempty hlen
+  exact ⟨s', h1, h6 hpre, h5⟩
 
 /-- the service start: Reset (or a fresh, zero segment) followed by LoadUHash -/
 theorem inv_init_cold_reset (L : Laws e fold) (recs : List Id) (hlen : recs.length ≤ e.MAX) :
@@ -214,6 +247,19 @@ theorem chains_acyclic {D : List Nat} {s : St Id} (hinv : InvD e D s) (h : Nat) 
     have : (((ch h)[i] : Nat) : Int) = (((ch h)[j] : Nat) : Int) := by simpa using heq
     omega
 
+/-- Every occupied slot is on exactly one chain, the one its id's hash selects (and chains of different buckets share
+no slot). -/
+theorem occupied_on_exactly_one_chain (L : Laws e fold) {s : St Id} (hinv : Inv e s) :
+    ∃ ch, WF e s ch ∧
+      (∀ (k : Nat) (id : Id), s.userid[k]? = some id → e.isEmpty id = false →
+        k ∈ ch (e.hash id) ∧ ∀ h, h < e.B → k ∈ ch h → h = e.hash id) ∧
+      (∀ h h' k, h < e.B → h' < e.B → k ∈ ch h → k ∈ ch h' → h = h') := by
+  obtain ⟨ch, hwf, _, hcov⟩ := hinv
+  refine ⟨ch, hwf, ?_, fun h h' k hh hh' hk hk' => wf_disjoint hwf hh hh' hk hk'⟩
+  intro k id hid hne
+  have hm := hcov k id hid hne (by simp)
+  exact ⟨hm, fun h hh hk => wf_disjoint hwf hh (L.hash_lt id) hk hm⟩
+
 /-! ## lookups -/
 
 /-- The `times < MAX_USERS` guard of DoSearchUserRaw never cuts a lookup short: under the invariant the loop gives the
@@ -337,6 +383,13 @@ theorem real_search_sound_complete {s : St (List Nat)} (hinv : Inv realEnv s) (h
         searchUserRaw realEnv s q = .ok (0, none)) :=
   search_sound_complete real_laws hinv huniq q
 
+/-- in the default build no record is ever skipped by the loader: PRE_ALLOCATED_USERS ≥ MAX_USERS -/
+theorem real_no_skip (recs : List (List Nat)) (hlen : recs.length ≤ realEnv.MAX) :
+    (recs.filter (fun r => !realEnv.valid r)).length ≤ realEnv.PRE := by
+  have h1 := List.length_filter_le (fun r => !realEnv.valid r) recs
+  have h2 : realEnv.MAX ≤ realEnv.PRE := by decide
+  omega
+
 /-- NewSHM's handshake accepts exactly the expected Version and Size -/
 theorem handshake_ok_iff (v s wv ws : Int) : handshake v s wv ws = "ok" ↔ v = wv ∧ s = ws := by
   unfold handshake
@@ -450,6 +503,80 @@ example : ∃ s, Reach toyEnv s [0] ∧ s.userid = [11, 55, 33, 0] := by
   rfl
 
 end toy
+
+
+/-! ## outside the quantifier: an on-the-fly reload from a file that DISAGREES with the live table -/
+
+section disagree
+/-- three slots, two buckets (parity), ids are numbers -/
+def toy2 : Env Nat where
+  MAX := 3
+  B := 2
+  PRE := 3
+  hash a := a % 2
+  ceq a b := a == b
+  seq a b := a == b
+  isEmpty a := a == 0
+  valid a := a != 0
+  zero := 0
+
+theorem toy2_laws : Laws toy2 id where
+  hash_lt a := Nat.mod_lt a (by decide)
+  hash_fold _ := rfl
+  ceq_iff a b := by simp [toy2]
+  seq_fold a b h := by simpa [toy2] using h
+  isEmpty_fold a b h := by simp only [id] at h; subst h; rfl
+  zero_empty := rfl
+
+/-- Recorded, NOT claimed by the property (its quantifier is "reloads from a .PASSWDS that agrees with the live table"):
+from a reachable state (cold load of [5, 22, 11], then slot 0 renamed to 13, so the odd chain is 2 → 0) an on-the-fly
+reload from a file that says slot 2 now holds 12 links slot 2 behind the even chain, which cuts the odd chain after
+slot 2: slot 0 still holds 13 and the lookup of 13 answers none. -/
+theorem onfly_disagreeing_file_loses_slot :
+    ∃ s s', Reach toy2 s [] ∧ loadUHash toy2 s (some ([13, 22, 12], false)) = .ok (s', .ok) ∧
+      s'.userid[0]? = some 13 ∧ searchUserRaw toy2 s' 13 = .ok (0, none) ∧ ¬ Inv toy2 s' := by
+  have h1 : coldLoad toy2 (some ([5, 22, 11], false)) =
+      .ok ({ userid := [5, 22, 11], head := [1, 0], next := [2, -1, -1], number := 3, loaded := 1 }, .ok) := by rfl
+  have r1 : Reach toy2 { userid := [5, 22, 11], head := [1, 0], next := [2, -1, -1], number := 3, loaded := 1 } [] :=
+    Reach.cold (resetSt toy2) [5, 22, 11] _ .ok ⟨rfl, rfl, rfl⟩ rfl rfl
+      (by intro k id hid
+          simp only [resetSt, List.getElem?_replicate] at hid
+          split at hid
+          · cases hid; rfl
+          · cases hid) (by decide) h1
+  have h2 : setUserID toy2 { userid := [5, 22, 11], head := [1, 0], next := [2, -1, -1], number := 3, loaded := 1 }
+      (((0 : Nat) : Int) + 1) 13 =
+      .ok ({ userid := [13, 22, 11], head := [1, 2], next := [-1, -1, 0], number := 3, loaded := 1 }, .ok) := by rfl
+  have r2 := Reach.set _ [] _ .ok 0 13 r1 (by decide) h2
+  have h3 : loadUHash toy2 { userid := [13, 22, 11], head := [1, 2], next := [-1, -1, 0], number := 3, loaded := 1 }
+      (some ([13, 22, 12], false)) =
+      .ok ({ userid := [13, 22, 12], head := [1, 2], next := [-1, 2, -1], number := 3, loaded := 1 }, .ok) := by rfl
+  refine ⟨_, _, r2, h3, rfl, by rfl, ?_⟩
+  intro hinv
+  have := (search_sound_complete toy2_laws hinv (by
+    intro i j idi idj hi hj _ hf
+    simp only [id] at hf
+    subst hf
+    match i, j, hi, hj with
+    | 0, 0, _, _ => rfl
+    | 1, 1, _, _ => rfl
+    | 2, 2, _, _ => rfl
+    | 0, 1, hi, hj => simp at hi hj; omega
+    | 0, 2, hi, hj => simp at hi hj; omega
+    | 1, 0, hi, hj => simp at hi hj; omega
+    | 1, 2, hi, hj => simp at hi hj; omega
+    | 2, 0, hi, hj => simp at hi hj; omega
+    | 2, 1, hi, hj => simp at hi hj; omega
+    | i + 3, _, hi, _ => simp at hi
+    | 0, j + 3, _, hj => simp at hj
+    | 1, j + 3, _, hj => simp at hj
+    | 2, j + 3, _, hj => simp at hj) 13).2.1 (by rfl) 0 13 rfl rfl
+  have h4 : searchUserRaw toy2 { userid := [13, 22, 12], head := [1, 2], next := [-1, 2, -1], number := 3, loaded := 1 } 13 =
+      .ok (0, none) := by rfl
+  rw [h4] at this
+  cases this
+
+end disagree
 
 /-- the real hash: "SYSOP" and "sysop" share a bucket; two different ids need not -/
 example : stringHashWithHashBits [83, 89, 83, 79, 80, 0] = stringHashWithHashBits [115, 121, 115, 111, 112, 0, 7, 7] := by
